@@ -3,7 +3,8 @@
 E-grid (complete products, no sampling) over
 
 * shiftop : Huang-Rhys factor x sign of the shift x basis size of operator_factory
-            (the shift is obtained through Mode.set_HR / set_shift / get_shift);
+            ("default" = the factory as the aggregate code creates it; the shift is obtained
+            through Mode.set_HR / set_shift / get_shift);
 * agg     : aggregates of two-level molecules with harmonic modes; every mode slot
             independently takes every (Huang-Rhys factor, sign, levels in g, levels in e)
             of its alphabet; x number of molecules x modes per molecule x coupling x
@@ -128,13 +129,16 @@ def eval_shiftop(case):
     qr = isolation.qr()
     from quantarhei.qm.oscillators.ho import operator_factory
     viol, dev = [], {}
-    S, sg, N = float(case["S"]), int(case["sg"]), int(case["N"])
+    S, sg = float(case["S"]), int(case["sg"])
+    # N = "default": the factory exactly as the aggregate code creates it
+    of = operator_factory() if case["N"] == "default" else operator_factory(int(case["N"]))
+    N = int(of.N)
     mol = {"E": [0.0, 1.0], "dip": DIPS[0],
            "modes": [{"w": 0.05, "d": [0.0, _shift(S, sg)], "n": [2, 2], "S": S, "sg": sg}]}
     m = _molecule(qr, mol, viol, dev)
     d_lib = m.get_Mode(0).get_shift(1)               # what the aggregate code would use
     d_ref = _shift(S, sg)
-    D = numpy.asarray(operator_factory(N).shift_operator(d_lib))
+    D = numpy.asarray(of.shift_operator(d_lib))
     if D.shape != (N, N):
         viol.append(("shiftop/shape", "shift operator has shape %s" % (D.shape,), None))
         return {"nontrivial": S > 0, "outcome": "bad-shape", "violations": viol}
@@ -191,7 +195,7 @@ def eval_shiftop(case):
                              "%d-level block: diagonal deficit differs from the tail weight "
                              "by %g" % (n, e3), None))
     dev["shiftop-orth"] = worst
-    out = ["shiftop", N, round(S, 6), sg, round(float(numpy.real(D[0, 0])), 9),
+    out = ["shiftop", case["N"], N, round(S, 6), sg, round(float(numpy.real(D[0, 0])), 9),
            round(float(numpy.real(D[1, 0])), 9)]
     return {"nontrivial": S > 0, "outcome": out, "violations": _dedupe(viol),
             "info": {"dev": dev}}
@@ -536,7 +540,7 @@ def sections(tier):
     """name -> list of cases (each the complete product of its alphabets)."""
     sec = {}
     if tier == "quick":
-        sec["shiftop"] = [{"kind": "shiftop", "S": S, "sg": sg, "N": 100}
+        sec["shiftop"] = [{"kind": "shiftop", "S": S, "sg": sg, "N": "default"}
                           for (S, sg) in _signed([0, 0.01, 0.1, 0.5, 1, 2])]
         full = _slot_alphabet(_signed([0, 0.01, 0.1, 0.5, 1, 2]), _pairs([1, 2, 3, 5]))
         q16 = _slot_alphabet([(0, 1), (0.1, 1), (0.5, -1), (1, 1)],
@@ -555,7 +559,7 @@ def sections(tier):
                         for (n0, n1) in ((2, 21), (21, 2))]
     else:
         sec["shiftop"] = [{"kind": "shiftop", "S": S, "sg": sg, "N": N}
-                          for N in (100, 150)
+                          for N in ("default", 150)
                           for (S, sg) in _signed([0, 0.01, 0.1, 0.25, 0.5, 1, 2, 3, 5, 8])]
         full = _slot_alphabet(_signed([0, 0.01, 0.1, 0.5, 1, 2, 3]), _pairs([1, 2, 3, 5, 8, 20]))
         t96 = _slot_alphabet([(0, 1), (0.01, 1), (0.1, 1), (0.5, -1), (1, 1), (2, 1)],
